@@ -170,7 +170,7 @@ class ScriptedEnv(ParallelEnv):
             act = float(np.asarray(act).reshape(-1)[0])
             if self.continuous:
                 act -= 0.5                                  # continuous actions are sent as v + 0.5 (a truncated action shows)
-            rew[ag] = 10.0 * act + self.t
+            rew[ag] = 10.0 * act + self.t + 0.5          # never an integer (a reward array of integer dtype would truncate it)
             leaving = (not last) and self.leave.get(a, 10 ** 9) <= self.t
             if last:
                 is_term = self.end == "term" or (self.end == "mixed" and a == 0)
@@ -178,6 +178,12 @@ class ScriptedEnv(ParallelEnv):
             else:
                 term[ag], trunc[ag] = bool(leaving), False
             info[ag] = {"tick": self.tick}
+            # two more info keys that only some sub-environments report at some steps (the first one by every sub-environment whose
+            # index + tick is even, the second one by sub-environment 0 only)
+            if (self.idx + self.tick) % 2 == 0:
+                info[ag]["aux"] = self.tick
+                if self.idx == 0:
+                    info[ag]["aux2"] = self.tick
         self.agents = [] if last else [ag for ag in present if not term[ag]]
         if last:
             self._just_ended = True
@@ -455,10 +461,18 @@ def run_data(cfg, ops, seed=0):
                                     tick = int(info[ag]["tick"][i])
                             except Exception:
                                 tick = -2
+                            def _key(name):
+                                try:
+                                    if ag in info and name in info[ag] and bool(info[ag]["_" + name][i]):
+                                        return int(info[ag][name][i])
+                                except Exception:
+                                    return -2
+                                return -1
                             rowl.append({"present": True, "obs": -1 if oid is None else oid,
-                                         "rew": 0 if rew is None else _intval(rew[ag][i]),
+                                         "rew": 0 if rew is None else _intval(2.0 * float(np.asarray(rew[ag][i]).reshape(-1)[0])),
                                          "term": False if term is None else bool(term[ag][i]),
-                                         "trunc": False if trunc is None else bool(trunc[ag][i]), "tick": tick})
+                                         "trunc": False if trunc is None else bool(trunc[ag][i]), "tick": tick,
+                                         "aux": _key("aux"), "aux2": _key("aux2")})
                         out.append(rowl)
                     e["out"] = out
                     if op[0] == "reset":
@@ -489,9 +503,11 @@ def run_data(cfg, ops, seed=0):
                     for a, ag in enumerate(agents):
                         oid = decode_obs(kind, obs[ag]) if ag in obs else 0
                         rowl.append({"present": ag in rew or op[0] == "reset", "obs": -1 if oid is None else oid,
-                                     "rew": _intval(rew[ag]) if ag in rew else 0,
+                                     "rew": _intval(2.0 * float(np.asarray(rew[ag]).reshape(-1)[0])) if ag in rew else 0,
                                      "term": bool(term.get(ag, False)), "trunc": bool(trunc.get(ag, False)),
-                                     "tick": int(info[ag]["tick"]) if ag in info and "tick" in info[ag] else -1})
+                                     "tick": int(info[ag]["tick"]) if ag in info and "tick" in info[ag] else -1,
+                                     "aux": int(info[ag]["aux"]) if ag in info and "aux" in info[ag] else -1,
+                                     "aux2": int(info[ag]["aux2"]) if ag in info and "aux2" in info[ag] else -1})
                     e["out"] = [rowl]
                     if op[0] == "reset":
                         try:
@@ -500,7 +516,7 @@ def run_data(cfg, ops, seed=0):
                             e["seeds"] = [-2]
             except Exception as ex:
                 e["exc"] = f"{type(ex).__name__}: {ex}"[:200]
-                e["out"] = [[{"present": False, "obs": -1, "rew": 0, "term": False, "trunc": False, "tick": -1} for _ in agents] for _ in range(NW)]
+                e["out"] = [[{"present": False, "obs": -1, "rew": 0, "term": False, "trunc": False, "tick": -1, "aux": -1, "aux2": -1} for _ in agents] for _ in range(NW)]
                 ev.append(e)
                 break
             ev.append(e)
